@@ -258,9 +258,11 @@ import units_sliding_deque
 import units_chunker
 import units_arena_read
 import units_sorted_deque
+import units_tlv_len
 VERUS_UNITS = {"hcobs": units_hcobs.HCOBS, "vouched_time": units_vouched_time.VOUCHED_TIME_VX,
                "sliding_deque": units_sliding_deque.SLIDING_DEQUE_VX, "chunker": units_chunker.CHUNKER,
-               "arena_read": units_arena_read.ARENA_READ, "sorted_deque": units_sorted_deque.SORTED_DEQUE_VX}
+               "arena_read": units_arena_read.ARENA_READ, "sorted_deque": units_sorted_deque.SORTED_DEQUE_VX,
+               "tlv_len": units_tlv_len.TLV_LEN}
 
 # ---- Engine C: bounded native cross-checks (stand-ins only) ---------------------------------------------------
 from native_engine import NativeTest, NativeUnit
@@ -492,8 +494,15 @@ PROPERTIES["C11"] = {
     "level": "model_checking",
     "native_units": ["rough_tlv"],
     "kani_units": ["rough_tlv"],
-    "verus_units": [],
+    "verus_units": ["tlv_len"],
     "assumptions": [
+        "UNBOUNDED (Verus unit tlv_len): MessageWrapper::compute_len -- the acceptance / length rule shared by all three "
+        "constructors -- for every number of pairs and every usize value length, generic in the value type: Ok <=> the i32::MAX "
+        "limits hold, Ok(n) => n == 4 + 4(N-1) + 4N + sum of value lengths, every error names its cause; the loop "
+        "`for (rank, len) in elements.iter().map(|x| ..).enumerate()` is desugared mechanically by rule N17; ASSUMED there: "
+        "ToRoughTLV::rough_tlv_len is a pure function of the value (ghost tlv_len); ZeroCopySink is an empty stand-in trait "
+        "(compute_len never touches a sink).  That encode() emits exactly that many bytes in the Roughtime layout, and the "
+        "sort, remain BOUNDED (below)",
         "bounded: <= 2 pairs x <= 1-byte values (quick), <= 3 x <= 2 (thorough); all u32 tags; the i32::MAX rule over all "
         "usize lengths; pair count > i32::MAX not materialisable (inspection only)",
         "sink (Kani) = a recording ZeroCopySink defined in the harness: MessageWrapper is generic in its sink and OwningIovec / the "
